@@ -25,8 +25,17 @@ def lines_to_px(fam, l, ch):
     return l * 2 if fam == "text" else l * ch
 
 
+def _is_real(p):
+    if is_sym(p):
+        import z3
+        return z3.is_real(p)
+    return isinstance(p, float)
+
+
 def px_to_lines(fam, p, ch):
     if fam == "text":
+        if _is_real(p):
+            return ceil_(truediv(p, 2))    # the real functions compute ceil(pixels / 2): also for a pixel count that is not integral
         return floordiv(p + 1, 2)          # ceil(p / 2) for an integer p
     return floordiv(p, ch)
 
